@@ -1215,6 +1215,14 @@ func phiName(p *ssa.Phi) string {
 
 func (fr *Frame) havocObject(st *State, o *Object, label string) {
 	v := fr.v
+	if o.Unmodelled && len(st.uload) > 0 {
+		pre := fmt.Sprintf("%d|", o.ID)
+		for k := range st.uload {
+			if strings.HasPrefix(k, pre) {
+				delete(st.uload, k)
+			}
+		}
+	}
 	v.fresh++
 	st.mem[o] = v.freshOfType(fmt.Sprintf("%s!%s!%d", o.Name, label, v.fresh), o.Type, v.content(st, o))
 }
